@@ -44,7 +44,59 @@ type budgetCase struct {
 	// and released together, Trials times: the search for an over-grant when the grab is not one atomic step
 	Stress bool `json:"stress,omitempty"`
 	Trials int  `json:"trials,omitempty"`
+	// SlowStart: the default parallel solver (the wrapper that constructs its own start solutions) on a model whose
+	// move estimates are slow, Iterations 0: the channel must close shortly after the duration although constructing
+	// one start solution alone takes several times as long
+	SlowStart   bool `json:"slow_start,omitempty"`
+	SlowSleepMs int  `json:"slow_sleep_ms,omitempty"`
 }
+
+// slowEstimate: a constraint that never rejects anything and takes a while to say so.
+type slowEstimate struct {
+	d     time.Duration
+	calls *atomic.Int64
+}
+
+func (c slowEstimate) String() string { return "slow_estimate" }
+func (c slowEstimate) EstimateIsViolated(nextroute.SolutionMoveStops) (bool, nextroute.StopPositionsHint) {
+	c.calls.Add(1)
+	time.Sleep(c.d)
+	return false, nextroute.NoPositionsHint()
+}
+
+// solveSlowStart: time from the call of Solve until the channel is closed, and what a whole construction costs.
+func solveSlowStart(model nextroute.Model, bc *budgetCase, calls *atomic.Int64) (closedAfter time.Duration, pan, errs string) {
+	defer func() {
+		if r := recover(); r != nil {
+			pan = fmt.Sprint(r)
+		}
+	}()
+	solver, err := nextroute.NewParallelSolver(model)
+	if err != nil {
+		return 0, "", err.Error()
+	}
+	ctx, cancel := ctxFor(bc.Ctx)
+	defer cancel()
+	t0 := time.Now()
+	ch, err := solver.Solve(ctx, nextroute.ParallelSolveOptions{Iterations: bc.Iters, Duration: time.Duration(bc.DurMs) * time.Millisecond,
+		ParallelRuns: bc.Runs, StartSolutions: bc.Starts, RunDeterministically: bc.Det})
+	if err != nil {
+		return 0, "", err.Error()
+	}
+	done := make(chan struct{})
+	go func() {
+		for range ch {
+		}
+		close(done)
+	}()
+	select {
+	case <-done:
+		return time.Since(t0), "", ""
+	case <-time.After(60 * time.Second):
+		return time.Since(t0), "", "not closed after 60s"
+	}
+}
+
 
 func runBudget(o *Out, _ *rand.Rand, thorough bool) {
 	o.Meta.Rule = "a case = generated instance × (iterations, duration, parallel runs, start solutions, deterministic, context kind, " +
@@ -84,12 +136,57 @@ func runBudget(o *Out, _ *rand.Rand, thorough bool) {
 			*bc = budgetCase{Case: c, Iters: n, DurMs: 3000, Runs: k, Ctx: "runstart", Stress: true, Trials: 25,
 				Requests: []int{n, n, n, n/2 + 1}}
 		}
+		if ci%10 == 9 {
+			c = genCase(rng, Profile{MaxStops: 7 + rng.Intn(4), MaxVehicles: 2})
+			*bc = budgetCase{Case: c, Iters: 0, DurMs: 150, Runs: 1 + rng.Intn(2), Starts: 1 + rng.Intn(2), Det: rng.Intn(2) == 0,
+				Ctx: pick(rng, []string{"runstart", "plain"}), SlowStart: true, SlowSleepMs: 250}
+		}
 		if !o.BeginCase(ci, bc) {
 			continue
 		}
 		o.Meta.Cases++
 		bt, err, pan := buildCase(c)
 		if pan != nil || err != nil {
+			continue
+		}
+		if bc.SlowStart {
+			var calls atomic.Int64
+			if e := bt.model.AddConstraint(slowEstimate{d: time.Duration(bc.SlowSleepMs) * time.Millisecond, calls: &calls}); e != nil {
+				continue
+			}
+			// what constructing ONE start solution costs when nothing interrupts it
+			ref, e := nextroute.NewSolution(bt.model)
+			if e != nil {
+				continue
+			}
+			t0 := time.Now()
+			_, e = nextroute.RandomSolutionConstruction(context.Background(), ref.Copy())
+			full := time.Since(t0)
+			if e != nil {
+				continue
+			}
+			closedAfter, span, serr := solveSlowStart(bt.model, bc, &calls)
+			o.Count("slow-start-cases")
+			if span != "" {
+				o.Violate(Violation{Property: "C15", Clause: "panic", Sig: "C15|panic|" + sigDetail(span), Detail: span, Replay: bc})
+				continue
+			}
+			if serr != "" {
+				o.Count("solve-error:" + errKind(fmt.Errorf("%s", serr)))
+				continue
+			}
+			limit := time.Duration(bc.DurMs) * time.Millisecond
+			o.Sample(map[string]any{"slow_start": true, "full_construction_ms": full.Milliseconds(), "closed_after_ms": closedAfter.Milliseconds(),
+				"duration_ms": bc.DurMs, "starts": bc.Starts})
+			// judged only when a full construction is long enough to tell the two apart
+			if full > limit+1200*time.Millisecond {
+				o.Count("slow-start-judged")
+				if closedAfter > limit+900*time.Millisecond {
+					o.Violate(Violation{Property: "C15", Clause: "closed-long-after-duration", Sig: "C15|closed-long-after-duration|start-solution-construction",
+						Detail: fmt.Sprintf("duration %v, channel closed after %v; constructing one start solution uninterrupted takes %v (starts=%d, ctx=%s)",
+							limit, closedAfter, full, bc.Starts, bc.Ctx), Replay: bc})
+				}
+			}
 			continue
 		}
 		res := solveBudget(bt.model, bc)
@@ -453,7 +550,7 @@ func runRepro(o *Out, _ *rand.Rand, thorough bool) {
 		if ci%2 == 0 {
 			// many stops, few constraints, matrices with a handful of distinct values: many equally good moves, so
 			// the tie-break draws decide which solution comes out
-			p = Profile{MaxStops: 16 + rng.Intn(10), MaxVehicles: 2 + rng.Intn(2), Precedence: true, ForceUnordered: true, Capacity: rng.Intn(2) == 0}
+			p = Profile{MaxStops: 16 + rng.Intn(10), MaxVehicles: 2 + rng.Intn(2), Precedence: true, ForceUnordered: true, Capacity: rng.Intn(2) == 0, StatedTwice: true}
 			div = 100
 		}
 		c := genCase(rng, p)
